@@ -110,6 +110,33 @@ Proof. exact spec_all_meaning. Qed.
 Theorem C08_covers : forall rs k, covers (names_of rs k) (eff rs k) /\ covers (names_of rs KService) (eff_int rs).
 Proof. intros rs k. split; [apply covers_eff|apply covers_eff_int]. Qed.
 
+(* Intentions.  "deny > write > list > read for the same name" is applied to the `intentions`
+   strings the policies give EXPLICITLY; only when no policy gives one is the intention level
+   derived from the service rule in force (read or write -> read, otherwise deny).  This is what the
+   code does (the merge compares Policy and Intentions separately, the default is taken after the
+   merge) and it is the reading built into the reference [eff_int]; it is a documented exemption,
+   not a finding: the other reading of the documentation (every service rule first gets its own
+   default, then the strongest wins) is NOT what consul implements, as the second part shows on
+   {P1: service "a" policy=read intentions=write; P2: service "a" policy=deny}. *)
+Definition eff_int_per_policy (rs : list rule) (pf : bool) (n : string) : option level :=
+  strongest (flat_map (fun r => match doc_level (r_int r) with
+                                | Some i => [i]
+                                | None => match doc_level (r_pol r) with
+                                          | Some LRead | Some LWrite => [LRead]
+                                          | Some _ => [LDeny]
+                                          | None => [] end
+                                end) (matching rs KService pf n)).
+
+Example C08_intentions_reading :
+  let ps := [Policy PEmpty PEmpty PEmpty PEmpty PEmpty [Rule KService false "a" (PCanon LRead) (PCanon LWrite)];
+             Policy PEmpty PEmpty PEmpty PEmpty PEmpty [Rule KService false "a" (PCanon LDeny) PEmpty]] in
+  forallb validate ps = true
+  /\ eff (all_rules ps) KService false "a" = Some LDeny           (* the service itself is denied *)
+  /\ eff_int (all_rules ps) false "a" = Some LWrite               (* the explicit intentions survive *)
+  /\ option_map (fun a => policy_decide a (MIntentionWrite "a")) (new_policy_authorizer ps) = Some Allow
+  /\ eff_int_per_policy (all_rules ps) false "a" = Some LDeny.    (* the per-policy reading would deny *)
+Proof. vm_compute. repeat split; reflexivity. Qed.
+
 (* ------------------------------------------------------------------ order independence *)
 
 Theorem C08_order_independent : forall ps ps' a a',
@@ -137,6 +164,18 @@ Theorem C08_map_order_independent : forall ps p' a a',
   new_policy_authorizer ps = Some a -> load_rules p' = Some a' ->
   forall m, policy_decide a' m = policy_decide a m.
 Proof. exact map_order_independent. Qed.
+
+(* non-vacuity: a genuinely different order of the merged rules *)
+Example C08_map_order_example :
+  let ps := [p_key "a" (PCanon LRead); p_key "b" (PCanon LWrite); p_key "a" (PCanon LDeny)] in
+  let m := merge_policies ps in
+  let p' := Policy (p_acl m) (p_keyring m) (p_operator m) (p_mesh m) (p_peering m) (rev (p_rules m)) in
+  forallb levelled ps = true /\ p_rules p' <> p_rules m /\ Permutation (p_rules p') (p_rules m)
+  /\ (exists a', load_rules p' = Some a').
+Proof.
+  cbv zeta. split; [reflexivity|]. split; [vm_compute; discriminate|]. split; [apply Permutation_sym, Permutation_rev|].
+  vm_compute. eexists; reflexivity.
+Qed.
 
 (* ------------------------------------------------------------------ purity *)
 
@@ -346,6 +385,24 @@ Proof.
   - apply Forall_cons; [unfold ex_W; auto|apply Forall_nil].
 Qed.
 
+(* ... and a cache from which entries were evicted and which was purged in between *)
+Example C08_evicted_cache_example :
+  let c1 := fst (compile caches_empty [ex_e1; ex_e2]) in
+  let c2 := Caches (aremove N.eqb 11%N (c_parsed c1)) (c_authz c1) in
+  let c3 := Caches (c_parsed c2) (aremove akey_eqb [(1, 1); (2, 1)]%N (c_authz c2)) in
+  reach ex_W c3 /\ c_parsed c3 <> [] /\ c_parsed c3 <> c_parsed c1 /\ c_authz c3 = []
+  /\ reach ex_W (fst (compile caches_empty [ex_e2]))
+  /\ resolve_decide c3 [ex_e1; ex_e2] deny_all (MKeyWrite "a") = resolve_decide caches_empty [ex_e1; ex_e2] deny_all (MKeyWrite "a").
+Proof.
+  cbv zeta.
+  assert (R1 : reach ex_W (fst (compile caches_empty [ex_e1; ex_e2]))).
+  { apply reach_compile; [apply reach_empty|]. repeat (apply Forall_cons || apply Forall_nil); unfold ex_W; auto. }
+  split; [apply reach_evict_authz, reach_evict_parsed, R1|].
+  split; [vm_compute; discriminate|]. split; [vm_compute; discriminate|]. split; [reflexivity|].
+  split; [apply reach_compile; [apply (reach_purge _ _ R1)|]; repeat (apply Forall_cons || apply Forall_nil); unfold ex_W; auto|].
+  vm_compute. reflexivity.
+Qed.
+
 (* the versioning hypothesis of C08_pure is needed: with two different policies under the same
    (ID, ModifyIndex) the authorizer cache hands the second token the first one's authorizer *)
 Example C08_pure_needs_versioning :
@@ -396,6 +453,9 @@ Print Assumptions C08_role_order_refuted.
 Print Assumptions C08_unscoped_identity_regression.
 Print Assumptions C08_token_example.
 Print Assumptions C08_levelled_example.
+Print Assumptions C08_intentions_reading.
+Print Assumptions C08_map_order_example.
 Print Assumptions C08_pure_example.
+Print Assumptions C08_evicted_cache_example.
 Print Assumptions C08_pure_needs_versioning.
 Print Assumptions C08_pure_needs_hash_determines_rules.
